@@ -70,6 +70,13 @@ def items(tier):
                 for kinds in (["cmd"] * n, ["exp"] * n):
                     out.append({"case": {"g": g, "kinds": kinds, "pars": [True] * n, "jobs": jobs, "fails": {str(failing): ["launch"]}}, "bound": 1})
                     out.append({"case": {"g": g, "kinds": kinds, "pars": [True] * n, "jobs": jobs, "fails": {str(failing): ["execfail"]}}, "bound": 1})
+    # experiments whose declared arguments / options are unusual floats (inf, -inf, 1e308): every task still gets its outcome
+    for g in ([[1], []], [[1, 2], [], []], [[1], [2], []]):
+        n = len(g)
+        for val in (float("inf"), float("-inf"), 1e308, -0.0):
+            for jobs in (1, 2):
+                out.append({"case": {"g": g, "kinds": ["exp"] * n, "pars": [jobs > 1] * n, "jobs": jobs, "fails": {},
+                                     "args": {str(n - 1): [val]}, "options": {"0": {"lr": val}}}, "bound": 0})
     # one failing task in every 4-task graph (5 in thorough), every listing order: skipped tasks with several dependencies, some of
     # them still pending when the skip happens
     for g in rungrid.graphs_upto((4,) if tier == "quick" else (4, 5)):
